@@ -274,5 +274,11 @@ func main() {
 			fmt.Fprintf(os.Stderr, "C09: %d infrastructure errors (see above); no verdict\n", infraErrors.Load())
 			os.Exit(2)
 		}
+		// E-SCHED companion: client/server interleavings (2 configurations x 4 subtree shards; thorough 4 x 4)
+		units := 8
+		if c.Thorough() {
+			units = 16
+		}
+		c.ForkSched(units, 16)
 	})
 }
